@@ -1,5 +1,6 @@
 import Tahoe.Storage.ImmConnLemmas
 import Tahoe.Storage.ImmDirLemmas
+import Tahoe.Storage.ImmRangeLemmas
 /-!
 C22 — immutable share storage semantics (property theorems only; helper lemmas live in
 `Tahoe/Storage/ImmLemmas.lean` and `Tahoe/Storage/ImmServerLemmas.lean`).
@@ -23,7 +24,7 @@ satisfies it, so the hypotheses `WF s` below are never vacuous restrictions.
 | a disconnected upload leaves no share behind | `disconnect_leaves_no_upload` (reachable states; seeded C22-b), `disconnect_is_aborts` |
 | … and releases its space reservation | `aborted_leaves_nothing`, `disconnect_leaves_no_upload` (allocated_size = sum over the other writers), C28 `released_on_close_or_abort`, `abort_always_releases`, `lost_connection_releases_space` |
 | quantifier: histories over several SIs / share numbers, overlapping out-of-order writes | all of the above are for all histories (`invariant_holds`, `reachable_invariants`); no bounds |
-| the `finished` flag returned by `write` | correspondence only (not in the statement) |
+| `write()` answers "finished" iff every byte of the allocated size is written (the HTTP server closes the upload on it — seeded C22-d) | `write_finished_iff_complete`, `http_patch_closes_only_complete` |
 | that the timeout fires after exactly 30·60 s of no write | model constant; correspondence only (boundaries 1799/1800/1801 s generated) |
 -/
 namespace Tahoe.C22
@@ -391,6 +392,61 @@ example : exD.dirs.length = 6 ∧ (findWid 1 exD.srv.incoming).map (·.1) = some
     (Dir.incDir 0 ∉ (dAbort exD 1).1.dirs ∧ Dir.finDir 0 ∈ (dAbort exD 1).1.dirs ∧
      Dir.incPrefix 0 ∈ (dAbort exD 1).1.dirs ∧ Dir.incDir 2 ∈ (dAbort exD 1).1.dirs) ∧
     visible (dAbort exD 1).1.srv (0, 0) = true ∧ (dAbort exD 1).2 = false := by decide
+
+/-- **write_finished_iff_complete**: in every reachable state, an accepted `write` through a live
+    handle answers "finished" iff afterwards every offset of the allocated size is covered by the
+    written-range map (the ranges are sorted and gapped in every reachable state, so "sum of the range
+    lengths = allocated size" can only mean the single range `[0, size)`). -/
+theorem write_finished_iff_complete (ro : Bool) (rs : Nat) (ops : List FOp) (ok : ∀ o ∈ ops, FOpOk o)
+    (wid off : Nat) (data : Bytes) (k : Key) (w : Writer) (f : File) (fin : Bool) :
+    let s := frun (Server.empty ro rs) ops
+    findWid wid s.incoming = some (k, (w, f)) → (writeOp s wid off data).2 = .ok fin →
+    ∃ w' f', getK k (writeOp s wid off data).1.incoming = some (w', f') ∧ w'.maxSize = w.maxSize ∧
+      (fin = true ↔ ∀ i, i < w.maxSize → rmMem w'.written i = true) := by
+  intro s hf hres
+  obtain ⟨hw, hh⟩ := reachable_invariants ro rs ops ok
+  have hr : WFR s := wfr_frun _ (by simp [WFR, Server.empty]) ops
+  have e := writeOp_effect s hw wid off data k w f hf
+  have hr' : WFR (writeOp s wid off data).1 := wfr_fstep s hr (.direct (.write wid off data))
+  simp only [writeOp, hf] at hres hr' e ⊢
+  have hb := bwWrite_ok _ f off data fin hres
+  refine ⟨(bwWrite { w with deadline := s.now + 30 * 60 } f off data).1,
+    (bwWrite { w with deadline := s.now + 30 * 60 } f off data).2.1, by rw [getK_setK]; simp, hb.2, ?_⟩
+  have hmem := hr' (k, ((bwWrite { w with deadline := s.now + 30 * 60 } f off data).1,
+    (bwWrite { w with deadline := s.now + 30 * 60 } f off data).2.1)) (List.mem_cons_self)
+  have hwf := e.1.inc k (bwWrite { w with deadline := s.now + 30 * 60 } f off data).1
+    (bwWrite { w with deadline := s.now + 30 * 60 } f off data).2.1 (by rw [getK_setK]; simp)
+  rw [hb.1]
+  have := finished_iff_covered _ _ hmem hwf.bound
+  rw [hb.2] at this
+  exact this
+
+/-- **http_patch_closes_only_complete**: the HTTP PATCH handler closes the upload (making the share
+    visible) exactly when `write` answered "finished", hence only when every byte is written. -/
+theorem http_patch_closes_only_complete (ro : Bool) (rs : Nat) (ops : List FOp) (ok : ∀ o ∈ ops, FOpOk o)
+    (wid off : Nat) (data : Bytes) (k : Key) (w : Writer) (f : File) :
+    let s := frun (Server.empty ro rs) ops
+    findWid wid s.incoming = some (k, (w, f)) →
+    (httpWriteOp s wid off data).1 ≠ (writeOp s wid off data).1 →
+    (writeOp s wid off data).2 = .ok true ∧
+    ∃ w' f', getK k (writeOp s wid off data).1.incoming = some (w', f') ∧
+      ∀ i, i < w.maxSize → rmMem w'.written i = true := by
+  intro s hf hne
+  have hres : (writeOp s wid off data).2 = .ok true := by
+    simp only [httpWriteOp] at hne
+    split at hne
+    · assumption
+    · exact absurd rfl hne
+  obtain ⟨w', f', h1, _, h3⟩ := write_finished_iff_complete ro rs ops ok wid off data k w f true hf hres
+  exact ⟨hres, w', f', h1, h3.mp rfl⟩
+
+/-- tail first, then the head: the first write is NOT finished, the second is; over the HTTP route
+    the share becomes visible only with the second -/
+example :
+    let s := frun (Server.empty false 0) [.allocConn 1 0 [0] 4 exRec 1000 []]
+    (writeOp s 0 2 [3, 4]).2 = .ok false ∧ visible (httpWriteOp s 0 2 [3, 4]).1 (0, 0) = false ∧
+    (writeOp (writeOp s 0 2 [3, 4]).1 0 0 [1, 2]).2 = .ok true ∧
+    readOp (httpWriteOp (httpWriteOp s 0 2 [3, 4]).1 0 0 [1, 2]).1 (0, 0) 0 9 = some [1, 2, 3, 4] := by decide
 
 /-- the same for the 30-minute timeout: once the clock passes an upload's deadline the upload is
     gone (file and reservation), nothing becomes visible, and uploads whose deadline has not
